@@ -97,6 +97,20 @@ theorem place_tiles (P : Params) (hc : 0 < P.chunk) (o n : Nat) (hn : 0 < n) (ho
   cases h
   exact ⟨tiles_readAt P hc o n hn ho, adjust_eq P n o⟩
 
+/-- For the chunks of `ReadAt(o, n)` the Go expression `chunk.size() - upperUnread - lowerUnread`
+is never negative (the truncated subtraction in `place` is the Go integer arithmetic, no hidden
+panic), `p[base : base+expectedSize]` lies inside the caller's buffer, and the cache read
+`[lower, lower+expected)` lies inside the chunk. -/
+theorem place_in_bounds (P : Params) (hc : 0 < P.chunk) (o n : Nat) (hn : 0 < n) (ho : o ≤ P.size)
+    (cs : List Chunk)
+    (h : walkChunks P (floorU o P.chunk) (ceilU (o + n - 1) P.chunk - 1) = some cs) :
+    ∀ c ∈ cs, (o - c.b) + ((c.e + 1) - (o + n)) ≤ c.size ∧
+      (place o n c).base + (place o n c).expected ≤ n ∧
+      (place o n c).lower + (place o n c).expected ≤ c.size := by
+  rw [walk_readAt P hc] at h
+  cases h
+  exact fun c hcm => place_bounds P hc o n hn ho c hcm
+
 /-- `Tiles` in index form: the first interval starts at `a`, each next one starts where the
 previous ends, the last one ends at `k`. -/
 theorem tiles_index (a k : Nat) (ps : List Place) (h : Tiles a ps k) :
@@ -253,6 +267,16 @@ theorem bytesWriter_correct (len destOff : Nat) (total : Bytes) (ps : List Bytes
     (destOff + len ≤ total.length → w.dest = slice total destOff len) := by
   subst hps
   exact bytesWriter_fold len destOff ps
+
+/-- In the copying branch of `Write` the Go slice expressions `p[pBegin:pEnd]` and
+`dest[destBase:]` are in bounds (no panic is hidden by the model's total list operations). -/
+theorem bytesWriter_slices_in_bounds (w : BW) (p : Bytes)
+    (h1 : ¬ (w.current - w.destOff > w.dest.length)) (h2 : ¬ (w.destOff - w.current ≥ p.length)) :
+    let pEnd0 := w.destOff + w.dest.length - w.current
+    let pEnd := if pEnd0 > p.length then p.length else pEnd0
+    w.destOff - w.current ≤ pEnd ∧ pEnd ≤ p.length ∧ w.current - w.destOff ≤ w.dest.length := by
+  simp only
+  split <;> omega
 
 example : ([[1, 2], [], [3, 4, 5], [6]] : List Bytes).flatten = [1, 2, 3, 4, 5, 6] := by decide
 example : (([[1, 2], [], [3, 4, 5], [6]] : List Bytes).foldl BW.write
